@@ -35,6 +35,7 @@ RULE = (
     "concatenation, in key_order, of the row-major matrices and every key receives bitwise its own reshaped slice. "
     "Non-trivial = >= 2 keys of equal numel but different shapes, or a 0-d key next to an n-d key, or an unreachable "
     "input, or batch > chunk. Distinct = distinct case description."
+    " A quarter of the Diagonalize / Stack / Select cases carry inf, -inf, nan, -0.0, 3e38 or denormal entries (compared NaN-safe, position by position)."
 )
 ASSUMPTIONS = ["the building blocks are imported from torchjd.autojac._transform (the anchored, private module)"]
 LEVEL_TEXT = "Generated-input search against NumPy references of each transform's linear map. No proof."
